@@ -19,6 +19,7 @@ Protocol (first line selects the gate; strings are dot-separated hex code points
   inn <sevthr> <decayMinutes> <none|empty|V,V,..> <sig>*    V = L:min:max | C:ctl:null | J:depth:size
   check <hex> [@ <hexpat>=<bit>* ; <P:tree|D|V|R|O>]        json.loads outcome recorded as well
   addpat <sig> · addval V · resetinfl · adv <us> · istats
+  inew <sevthr> <decayMinutes> <none|empty|V,..> <custom sig>* [@ nb=<n>] · iuse <k>     several filters of one class alive
 `run_impl` rewrites the `@ …` part of every line from what the implementation's own library calls returned
 (environment-recording correspondence, DESIGN 3.3); the driver then has to make the same calls and reach the
 same observation.
@@ -829,11 +830,28 @@ class C10(Prop):
         pats = builtin + [self._rand_sig(rng, 6) for _ in range(rng.choice([0, 0, 1, 2]))]
         lines = [" ".join(["inn", str(thr), str(decay), vtok] + pats)]
         hist = []
+        icolony, icur = [None], 0
         deep_ok = huge_ok
         for _ in range(rng.choice([1, 2, 3, 4, 6, 8])):
             op = rng.choice(["check"] * 13 + ["addpat", "addval", "resetinfl", "adv", "adv", "istats", "setvals",
-                                              "sevthr", "ihook", "ihook"])
-            if op == "check":
+                                              "sevthr", "ihook", "ihook", "inew", "iuse"])
+            if op == "inew":
+                icolony[icur] = (pats, jcfg)
+                custom = [self._rand_sig(rng, 6) for _ in range(rng.choice([0, 1, 2]))]
+                jcfg = None
+                lines.append(" ".join(["inew", str(rng.choice([0, 2, 3, 3, 5])), str(rng.choice([0, 15])),
+                                       rng.choice(["none", "empty", "L:0:50", "C:0:0"])] + custom))
+                pats = pats[:len(builtin)] + custom
+                icolony.append(None)
+                icur = len(icolony) - 1
+            elif op == "iuse":
+                k_ = rng.randrange(len(icolony))
+                lines.append(f"iuse {k_}")
+                if k_ != icur:
+                    icolony[icur] = (pats, jcfg)
+                    pats, jcfg = icolony[k_]
+                    icur = k_
+            elif op == "check":
                 if jcfg and rng.random() < 0.55:
                     c = self._json_text(rng, jcfg[0], jcfg[1], deep_ok)
                     if len(c) > 9000:
@@ -933,6 +951,14 @@ class C10(Prop):
             for ops in itertools.product(calpha, repeat=k):
                 colony.append({"lines": ["mem 2 none 1", "learn " + self._sigtok("jailbreak", 2, False), "new 3 none 0",
                                          "use 0"] + list(ops) + ["stats", "use 0", "stats"], "note": f"two membranes alive, depth {k}"})
+        ialpha = ["iuse 0", "iuse 1", "check " + hexs("say omega now"), "check " + hexs("a Zebra b"), "check " + hexs("tango"),
+                  "addpat " + self._sigtok("tango", 5, False), "istats"]
+        icolony = []
+        for k in range(1, 4):
+            for ops in itertools.product(ialpha, repeat=k):
+                icolony.append({"lines": ["inn 3 15 none " + self._sigtok("omega", 5, False),
+                                          "inew 3 15 empty " + self._sigtok("zebra", 5, False)] + list(ops) + ["istats"],
+                                "note": f"two innate filters alive, depth {k}"})
         L = self.par_lines
         floods = []
 
@@ -954,6 +980,8 @@ class C10(Prop):
                          f"schedule with one context switch (limits 1-3, either thread first, switch after each of the "
                          f"{L} lines a call executes) and schedules with two context switches (limit 2, "
                          f"{'every third' if stride > 1 else 'every'} second switch point)", "cases": floods},
+                {"name": "two innate filters of one class alive, each with its own custom pattern: all histories of <= 3 ops "
+                         "over iuse / check (three probes) / addpat / istats", "cases": icolony},
                 {"name": "two membranes alive (donor that learned a pattern, recipient with adaptive immunity off and "
                          "threshold CRITICAL): all histories of <= 3 ops over use / xfer / filter (hit, benign) / forget / "
                          "learn (same key, other level) / thr / addsig", "cases": colony},
@@ -1055,6 +1083,7 @@ class C10(Prop):
         m = None
         im = None
         members, mcls, nbuiltin = [], None, 0
+        imembers, icls, inb = [], None, 0
         self.clock.us = 0
         for idx, raw in enumerate(lines):
             line = raw.split(" @", 1)[0].rstrip()
@@ -1216,6 +1245,24 @@ class C10(Prop):
                     cls = type("InnateUnderTest", (IN.InnateImmunity,), {"DEFAULT_PATTERNS": builtin_objs})
                     im = cls(patterns=[self._mk_pat(x) for x in rest], validators=vals, severity_threshold=int(t[1]),
                              inflammation_decay_minutes=int(t[2]), silent=True)
+                    imembers, icls, inb = [im], cls, len(builtin_objs)
+                    obs.append("ok")
+                elif op == "inew":
+                    # a further InnateImmunity of the SAME class, alive next to the others
+                    if not imembers:
+                        obs.append("bad-op")
+                        continue
+                    vals = None if t[3] == "none" else [] if t[3] == "empty" else [self._mk_val(v) for v in t[3].split(",")]
+                    im = icls(patterns=[self._mk_pat(x) for x in t[4:]], validators=vals, severity_threshold=int(t[1]),
+                              inflammation_decay_minutes=int(t[2]), silent=True)
+                    imembers.append(im)
+                    lines[idx] = line + f" @ nb={inb}"
+                    obs.append(f"ok k={len(imembers) - 1}")
+                elif op == "iuse":
+                    if not imembers or not t[1].isdigit() or int(t[1]) >= len(imembers):
+                        obs.append("bad-op")
+                        continue
+                    im = imembers[int(t[1])]
                     obs.append("ok")
                 elif op == "check":
                     if im is None:
@@ -1276,8 +1323,9 @@ class C10(Prop):
                     obs.append("bad-op")
             except (AttributeError, TypeError, ValueError, IndexError, KeyError) as e:
                 if (m is None and op not in ("inn", "check", "addpat", "addval", "resetinfl", "istats", "setvals",
-                                             "sevthr", "ihook")) or \
-                        (im is None and op in ("addpat", "addval", "resetinfl", "istats", "setvals", "sevthr", "ihook")):
+                                             "sevthr", "ihook", "inew", "iuse")) or \
+                        (im is None and op in ("addpat", "addval", "resetinfl", "istats", "setvals", "sevthr", "ihook",
+                                               "inew", "iuse")):
                     obs.append("bad-op")      # operation before any configuration line (shrunk / malformed case)
                 else:
                     raise
@@ -1623,6 +1671,7 @@ class C10(Prop):
         recent = []
         acute = []
         checks = 0
+        states, cur, ibase = [None], 0, []      # several filters alive: each judged by ITS OWN patterns / validators
         for idx, (line, o) in enumerate(zip(lines, obs)):
             t = line.split(" ")
             op = t[0]
@@ -1633,6 +1682,26 @@ class C10(Prop):
                 pats = [self._parse_sig(x) for x in t[4:]]
                 recent = []
                 checks = 0
+                nb, pool = 0, list(self.in_builtin)
+                for x in t[4:]:
+                    if x in pool:
+                        pool.remove(x)
+                        nb += 1
+                    else:
+                        break
+                states, cur, ibase = [None], 0, pats[:nb]
+            elif op == "inew" and o.startswith("ok"):
+                states[cur] = (thr, pats, vals, recent, acute, checks)
+                thr = int(t[1])
+                vals = list(dvals) if t[3] in ("none", "empty") else t[3].split(",")
+                pats = ibase + [self._parse_sig(x) for x in t[4:]]
+                recent, acute, checks = [], [], 0
+                states.append(None)
+                cur = len(states) - 1
+            elif op == "iuse" and o == "ok":
+                states[cur] = (thr, pats, vals, recent, acute, checks)
+                cur = int(t[1])
+                thr, pats, vals, recent, acute, checks = states[cur]
             elif op == "addpat":
                 pats.append(self._parse_sig(t[1]))
                 acute = []
